@@ -1,5 +1,6 @@
 import EaselModel.Generated.Alphabets
 import EaselModel.Alphabet.RevcompLemmas
+import EaselModel.Alphabet.ScoreLemmas
 /-! # C08 — property theorems (statements + glue only; lemmas live in Alphabet/*.lean)
 
 `G.dna`, `G.rna`, `G.amino`, `G.coins`, `G.dice` are the tables dumped from the code under check on this run
@@ -152,7 +153,45 @@ theorem revcomp_involutive (a : Alphabet) (comp : List Nat) (hc : a.complement =
   revcomp_twice a comp hc hw (mkDsq codes) n (by simp [mkDsq]; omega)
     (fun i h1 h2 => mkDsq_valid codes _ hv i h1 (by omega))
 
+/-! ## degenerate scores and counts (over ℚ: the code as a rational function; IEEE rounding is L0, compared bit-exactly
+      against the real code by the correspondence run) -/
+
+/-- `esl_abc_{F,D}AvgScore(a, x, sc)` = the mean of `sc` over the set of canonical residues `x` stands for
+    (for a canonical `x` the set is `{x}`: its own score; for `any` all `K` residues) -/
+theorem avg_score_is_mean (a : Alphabet) (h : a.WFDegen) (x : Nat) (hx : x < a.Kp) (hres : a.xIsResidue x = true)
+    (sc : List ℚ) (hsc : a.K ≤ sc.length) :
+    a.avgScore x sc = some (((a.degenSet x).map fun i => sc.getD i 0).sum / ((a.degenSet x).length : ℚ)) :=
+  avgScore_mean a h x hx hres sc hsc
+
+/-- gap, nonresidue, missing and invalid codes score 0 -/
+theorem avg_score_nonresidue (a : Alphabet) (x : Nat) (hres : a.xIsResidue x = false) (sc : List ℚ) :
+    a.avgScore x sc = some 0 := avgScore_nonresidue a x hres sc
+
+/-- `esl_abc_{F,D}ExpectScore` = the `p`-weighted average over the set -/
+theorem expect_score_is_weighted_mean (a : Alphabet) (h : a.WFDegen) (x : Nat) (hx : x < a.Kp)
+    (hres : a.xIsResidue x = true) (sc p : List ℚ) (hsc : a.K ≤ sc.length) (hp : a.K ≤ p.length) :
+    a.expectScore x sc p = some (((a.degenSet x).map fun i => sc.getD i 0 * p.getD i 0).sum /
+      ((a.degenSet x).map fun i => p.getD i 0).sum) :=
+  expectScore_weighted a h x hx hres sc p hsc hp
+
+/-- `esl_abc_{F,D}Count` of a degenerate code splits `wt` equally: each member of the set gets `wt/|set|`, every other
+    counter is unchanged, and the shares sum to `wt` -/
+theorem count_splits_equally (a : Alphabet) (h : a.WFDegen) (x : Nat) (hx : x < a.Kp) (hdeg : a.xIsDegenerate x = true)
+    (ct : List ℚ) (hct : a.K ≤ ct.length) (wt : ℚ) :
+    ∃ ct', a.count ct x wt = some ct' ∧ ct'.length = ct.length ∧
+      (∀ y, ct'.getD y 0 = ct.getD y 0 + (if y ∈ a.degenSet x then wt / ((a.degenSet x).length : ℚ) else 0)) ∧
+      ((a.degenSet x).length ≠ 0 → ((a.degenSet x).map fun _ => wt / ((a.degenSet x).length : ℚ)).sum = wt) :=
+  count_equal_split a h x hx hdeg ct hct wt
+
+/-- the degeneracy set read off the dumped table is the IUPAC set (as residue indices): ties `degenSet` above to
+    `degen_is_iupac` — e.g. DNA `R` ↦ [A, G] = [0, 2], `N` ↦ [0,1,2,3]; amino `B` ↦ [D, N] = [2, 11] -/
+theorem degen_set_examples :
+    G.dna.degenSet 5 = [0, 2] ∧ G.dna.degenSet 15 = [0, 1, 2, 3] ∧ G.dna.degenSet 4 = [] ∧ G.amino.degenSet 21 = [2, 11] ∧
+    G.amino.degenSet 22 = [7, 9] ∧ G.amino.degenSet 23 = [3, 13] ∧ G.amino.degenSet 24 = [8] ∧ G.amino.degenSet 25 = [1] := by
+  decide +kernel
+
 /-! ## non-vacuity -/
+example : G.dna.WFDegen ∧ G.dna.xIsResidue 5 = true ∧ G.dna.xIsDegenerate 5 = true := by decide +kernel
 example : G.dna.WF := by decide +kernel
 example : G.dna.WFComp [3, 2, 1, 0, 4, 6, 5, 8, 7, 9, 10, 14, 13, 12, 11, 15, 16, 17] := by decide +kernel
 example : G.dna.digitize (str "acgu nX-.") = (.einval, [255, 0, 1, 2, 3, 15, 15, 15, 4, 4, 255]) := by decide +kernel
